@@ -891,6 +891,127 @@ func c02r6(p *Program, r *Report) {
 	}
 	destWidth := map[string]int{"*uint": word, "*uint64": 64, "*uint32": 32, "*uint16": 16, "*uint8": 8,
 		"reflect.Uint": word, "reflect.Uint64": 64, "reflect.Uint32": 32, "reflect.Uint16": 16, "reflect.Uint8": 8}
+	// table-driven form: the mask comes from a helper h(info.Type(), <destination bound>) (mask, ok) that looks the
+	// CQL type up in a constant table. The helper is evaluated (term interpreter, constant arguments) for each
+	// narrow CQL type and for a type without a narrow width: it must say ok exactly for the types that fit the
+	// destination, with the mask of the type's width.
+	nswitch := 0
+	ast.Inspect(fi.Decl.Body, func(x ast.Node) bool {
+		if sw, ok := x.(*ast.SwitchStmt); ok && sw.Tag != nil && exprStr(sw.Tag) == "info.Type()" {
+			nswitch++
+		}
+		return true
+	})
+	if nswitch == 0 {
+		scope := p.Root.Types.Scope()
+		typeConst := func(name string) (int64, bool) {
+			if c, ok := scope.Lookup(name).(*types.Const); ok {
+				if v, exact := constant.Int64Val(constant.ToInt(c.Val())); exact {
+					return v, true
+				}
+			}
+			return 0, false
+		}
+		ncall := 0
+		for _, c := range callsIn(fi.Decl.Body) {
+			fn := calleeOf(info, c)
+			if fn == nil {
+				continue
+			}
+			h := p.FuncOf(fn)
+			if h == nil || h.Pkg != p.Root || h.Decl.Body == nil || h == fi {
+				continue
+			}
+			sig := fn.Type().(*types.Signature)
+			if sig.Results().Len() != 2 {
+				continue
+			}
+			if b, isB := sig.Results().At(1).Type().Underlying().(*types.Basic); !isB || b.Kind() != types.Bool {
+				continue
+			}
+			typeArg := -1
+			for i, a := range c.Args {
+				if strings.HasSuffix(strings.ReplaceAll(exprStr(a), " ", ""), ".Type()") {
+					typeArg = i
+				}
+			}
+			if typeArg < 0 {
+				continue
+			}
+			outer, _ := p.enclosing(c, fi.Decl, func(n ast.Node) bool {
+				cc, is := n.(*ast.CaseClause)
+				if !is || len(cc.List) == 0 {
+					return false
+				}
+				_, known := destWidth[exprStr(cc.List[0])]
+				return known
+			}).(*ast.CaseClause)
+			if outer == nil {
+				continue
+			}
+			dest := exprStr(outer.List[0])
+			dw := destWidth[dest]
+			ncall++
+			tests := []struct {
+				name string
+				w    int
+			}{{"TypeInt", 32}, {"TypeSmallInt", 16}, {"TypeTinyInt", 8}, {"TypeBigInt", 0}, {"TypeVarchar", 0}}
+			for _, tc := range tests {
+				tval, okT := typeConst(tc.name)
+				if !okT {
+					r.Unresolved("unmarshalIntlike: constant %s not found", tc.name)
+					continue
+				}
+				se := newSymEval(p)
+				var args []sval
+				okArgs := true
+				for i, a := range c.Args {
+					pt := sig.Params().At(minInt(i, sig.Params().Len()-1)).Type()
+					if i == typeArg {
+						args = append(args, se.intVal(tConst(uint64(tval)), pt))
+						continue
+					}
+					if k, isK := constInt(info, a); isK {
+						args = append(args, se.intVal(tConst(uint64(k)), pt))
+					} else if u, isU := constUint(info, a); isU {
+						args = append(args, se.intVal(tConst(u), pt))
+					} else {
+						okArgs = false
+					}
+				}
+				if !okArgs {
+					r.Unresolved("unmarshalIntlike %s: a non-constant argument of %s", dest, h.Name)
+					break
+				}
+				vals, okE := se.evalFunc(h, args)
+				if !okE || len(se.unsup) > 0 || len(vals) != 2 || vals[1].kind != 'b' || !vals[1].bk {
+					r.Unresolved("unmarshalIntlike %s: %s cannot be evaluated for %s (%s)", dest, h.Name, tc.name, strings.Join(se.unsup, "; "))
+					break
+				}
+				gotOK := vals[1].b
+				name := fmt.Sprintf("unmarshalIntlike %s / %s: mask equals the %d-bit CQL width and fits the destination", dest, tc.name, tc.w)
+				if tc.w == 0 {
+					r.Check(!gotOK, c, "unmarshalIntlike "+dest+": case "+tc.name, "no masked reinterpretation for a type without a narrow width", "a masked reinterpretation is applied to a CQL type that has no fixed narrow width")
+					continue
+				}
+				if tc.w > dw {
+					r.Check(!gotOK, c, name, "wider than the destination: range-checked instead", fmt.Sprintf("a %s column read into %s is masked into a %d-bit destination although the column is %d bits wide: values are truncated", tc.name, dest, dw, tc.w))
+					continue
+				}
+				okMask := gotOK && vals[0].kind == 'i' && vals[0].t.isConst() && vals[0].t.k == (uint64(1)<<uint(tc.w))-1
+				got := "no mask"
+				if gotOK && vals[0].kind == 'i' {
+					got = vals[0].t.String()
+				}
+				r.Check(okMask, c, name, fmt.Sprintf("%s gives mask %s", h.Name, got),
+					fmt.Sprintf("a %s column read into %s is masked with %s by %s: the column is %d bits wide, so values are truncated, keep sign-extension bits, or a negative value is rejected instead of being reinterpreted like its siblings", tc.name, dest, got, h.Name, tc.w))
+			}
+		}
+		if ncall == 0 {
+			r.Unresolved("unmarshalIntlike: neither a switch on info.Type() nor a mask helper taking info.Type() was found")
+		}
+		return
+	}
 	ast.Inspect(fi.Decl.Body, func(x ast.Node) bool {
 		sw, ok := x.(*ast.SwitchStmt)
 		if !ok || sw.Tag == nil || exprStr(sw.Tag) != "info.Type()" {
@@ -1761,9 +1882,42 @@ func c02r8(p *Program, r *Report) {
 					tl.drops = append(tl.drops, inc) // falling through the body drops the byte, too
 				}
 			} else {
+				// A without a post statement: the index is advanced inside the body only (for i < n-1 { .. i++ .. })
+				ivs := map[string]bool{}
+				ast.Inspect(loop.Body, func(y ast.Node) bool {
+					if z, isInc := y.(*ast.IncDecStmt); isInc && z.Tok == token.INC {
+						if id, isId := ast.Unparen(z.X).(*ast.Ident); isId {
+							ivs[id.Name] = true
+						}
+					}
+					return true
+				})
+				for iv := range ivs {
+					lo, hi := map[string]bool{}, map[string]bool{}
+					var drops []ast.Node
+					ast.Inspect(loop.Body, func(y ast.Node) bool {
+						switch z := y.(type) {
+						case *ast.IndexExpr:
+							switch strings.ReplaceAll(exprStr(z.Index), " ", "") {
+							case iv:
+								lo[exprStr(z)] = true
+							case iv + "+1":
+								hi[exprStr(z)] = true
+							}
+						case *ast.IncDecStmt:
+							if z.Tok == token.INC && exprStr(z.X) == iv {
+								drops = append(drops, z)
+							}
+						}
+						return true
+					})
+					if len(lo) > 0 && len(hi) > 0 && len(tl.lo) == 0 {
+						tl.lo, tl.hi, tl.drops = lo, hi, drops
+					}
+				}
 				ast.Inspect(loop.Body, func(y ast.Node) bool {
 					as, isAs := y.(*ast.AssignStmt)
-					if !isAs || as.Tok != token.ASSIGN || len(as.Lhs) != 1 || len(as.Rhs) != 1 {
+					if !isAs || as.Tok != token.ASSIGN || len(as.Lhs) != 1 || len(as.Rhs) != 1 || len(tl.lo) > 0 && len(tl.drops) > 0 {
 						return true
 					}
 					sl, isSl := ast.Unparen(as.Rhs[0]).(*ast.SliceExpr)
@@ -1804,7 +1958,14 @@ func c02r8(p *Program, r *Report) {
 			// the stops: break statements that leave this loop
 			ast.Inspect(loop.Body, func(y ast.Node) bool {
 				br, ok := y.(*ast.BranchStmt)
-				if !ok || br.Tok != token.BREAK || br.Label != nil {
+				if !ok || br.Tok != token.BREAK {
+					return true
+				}
+				if br.Label != nil {
+					// break <label of this loop>, also from inside a switch in the body
+					if ls, isL := p.Parent(loop).(*ast.LabeledStmt); isL && ls.Label.Name == br.Label.Name {
+						tl.stops = append(tl.stops, br)
+					}
 					return true
 				}
 				inner := p.enclosing(br, fi.Decl, func(m ast.Node) bool {
@@ -1862,8 +2023,11 @@ func c02r8(p *Program, r *Report) {
 			// named conditions over the bytes (booleans tested by the loop)
 			return !strings.Contains(atom, " ") && !strings.Contains(atom, ".")
 		})
-		g.markNodes, g.unmarkNodes = nil, nil
-		g.factsCache, g.factsPSCache = nil, nil
+		// (the marks stay until the end of the rule: queries re-run the step function inside a block)
+		defer func(g *Graph) {
+			g.markNodes, g.unmarkNodes = nil, nil
+			g.factsCache, g.factsPSCache = nil, nil
+		}(g)
 		for _, tl := range loops {
 			found++
 			var loN, hiN string
